@@ -28,7 +28,7 @@ REQUIRED_CLASSES = ['material-number-fraction', 'material-mass-fraction', 'subst
                     'natural', 'most-abundant', 'single-component', 'components>=5', 'proportion-span>=1e4',
                     'scaling-k<1', 'scaling-k>1', 'duality-number-to-mass', 'duality-mass-to-number',
                     'repeated-substance-in-string', 'composite-from-addition', 'composite-from-add-method',
-                    'composite-from-number-times-material', 'shared-component-accumulated']
+                    'composite-from-number-times-material', 'shared-component-accumulated', 'operands-rechecked-after-sum']
 REQUIRED_MONITORS = ['fraction_rows_checked', 'sum_rows_checked', 'scaling_twins_compared', 'duality_twins_compared',
                      'table_hygiene_checks']
 ASSUMPTIONS = ['component masses m_i are taken from data_components() (their correctness is C10)',
@@ -455,6 +455,18 @@ def run_arith(case, ctx, classes, mon, devs):
         col, tag = 'fraction', 'material-result:'
     obs = cut('result-tables', lambda: read_composite(C, col))
     check_fractions(tag, given, norm, obs, devs, mon)
+    if op == 'add':
+        # the operands of a sum must still describe the mixtures they were built from (x and X normalised, proportional)
+        classes.add('operands-rechecked-after-sum')
+        own_a = {t: float(c) for t, c in ca.items()} if case['kind'] == 'substance' else dict(da)
+        check_fractions('left-operand-after-sum:', own_a, norm, cut('left-operand-tables', lambda: read_composite(A, col)), devs, mon)
+        if case['kind'] == 'substance':
+            check_fractions('right-operand-after-sum:', {t: float(c) for t, c in cb.items()}, norm,
+                            cut('right-operand-tables', lambda: read_composite(B, col)), devs, mon)
+        # ... also after the RESULT is extended in place by a component the left operand holds
+        first = list(own_a)[0]
+        cut('result.add', lambda: C.add(first, 2 if case['kind'] == 'substance' else 0.25))
+        check_fractions('left-operand-after-result-add:', own_a, norm, cut('left-operand-tables', lambda: read_composite(A, col)), devs, mon)
     order, amt, mass, x, X, srow = obs
     sample = dict(kind=case['kind'] + ' ' + op, natural=natural, norm=norm, expression=shown, accumulated_amounts=given,
                   masses=mass, observed_x=x, observed_X=X, sum_row=srow)
